@@ -8,6 +8,9 @@ import (
 
 // DecodeUserDataRegisteredSEI decodes a SEI message of type 4.
 func DecodeUserDataRegisteredSEI(sd *SEIData) (SEIMessage, error) {
+	if len(sd.payload) < 8 {
+		return nil, fmt.Errorf("user data registered SEI payload too short: %d bytes", len(sd.payload))
+	}
 	itutData := ITUData{
 		CountryCode:      sd.payload[0],
 		ProviderCode:     binary.BigEndian.Uint16(sd.payload[1:3]),
@@ -74,6 +77,9 @@ func (s *RegisteredSEI) Payload() []byte {
 // CEA-608 encapsulation in SEI nal unit is defined in ATSC-120 and further
 // in CTA-708 specification (previously CEA-708).
 func ExtractCEA608sei(sd *SEIData) (*CEA608sei, error) {
+	if len(sd.payload) < 8 {
+		return nil, fmt.Errorf("CEA-608 SEI payload too short: %d bytes", len(sd.payload))
+	}
 	field1, field2, err := ParseCEA608(sd.payload[8:])
 	if err != nil {
 		return nil, err
@@ -117,6 +123,9 @@ func (s *CEA608sei) Payload() []byte {
 // This is specified in Section 4.3 of ANSI/CTA-708-E R-2018.
 func ParseCEA608(payload []byte) ([]byte, []byte, error) {
 	pos := 0
+	if len(payload) == 0 {
+		return nil, nil, fmt.Errorf("not enough data for CEA-708 parsing")
+	}
 	ccCount := payload[pos] & 0x1f
 	pos += 2 // Advance 1 and skip reserved byte
 	var field1 []byte
